@@ -211,6 +211,26 @@ Theorem C18_settings_rules :
 Proof. exact settings_rules. Qed.
 Print Assumptions C18_settings_rules.
 
+(** SETTINGS and GOAWAY through ParseNext, with their values: an accepted SETTINGS frame yields
+    exactly MAX_FIELD_SECTION_SIZE (or -1), the two booleans, and the unknown settings in order;
+    a GOAWAY frame yields the stream ID when its length is the length of the varint, else the
+    "inconsistent length" error. *)
+Theorem C18_settings_goaway_values :
+  (forall (f : nat) (s : src) (cl : option Z) (th lh rest : list Z) (ps : list (Z * Z)) (fr : settings),
+     benign s -> venc th 4 -> venc lh (zlen (enc_pairs ps)) -> zlen (enc_pairs ps) <= 8192 -> Forall pair_ok ps ->
+     settings_payload (enc_pairs ps) = inr fr -> s_data s = th ++ lh ++ enc_pairs ps ++ rest ->
+     (exists s', parse_next (S f) s cl = (inr (FSettings fr), s', cl) /\ s_data s' = rest) /\
+     st_other fr = filter unknown_setting ps /\
+     st_mfs fr = match pair_val h3SettingMaxFieldSectionSize ps with Some v => v | None => -1 end /\
+     st_ec fr = match pair_val h3SettingExtendedConnect ps with Some v => v =? 1 | None => false end /\
+     st_dg fr = match pair_val h3SettingDatagram ps with Some v => v =? 1 | None => false end) /\
+  (forall (f : nat) (s : src) (cl : option Z) (th lh ie rest : list Z) (l id : Z),
+     benign s -> venc th 7 -> venc lh l -> venc ie id -> s_data s = th ++ lh ++ ie ++ rest ->
+     exists s', parse_next (S f) s cl =
+                  ((if zlen ie =? l then inr (FGoaway id) else inl EGoawayLen), s', cl) /\ s_data s' = rest).
+Proof. exact settings_goaway_through_parser. Qed.
+Print Assumptions C18_settings_goaway_values.
+
 (** Non-vacuity: a concrete well-formed frame sequence (GREASE frame, non-minimal DATA header,
     empty DATA frame, MAX_PUSH_ID frame) read byte-by-byte with mixed buffers. *)
 Example C18_example_wf : Forall wf_frame example_frames.
@@ -230,3 +250,10 @@ Example C18_example_settings :
   settings_payload (enc_pairs [(8, 2)]) = inl (ESettingsBool 8).
 Proof. vm_compute. auto. Qed.
 Print Assumptions C18_example_settings.
+
+Example C18_example_goaway :
+  fst (fst (parse_next 5 (mkSrc [7; 1; 4; 0] [1; 1; 1] EEOF false) None)) = inr (FGoaway 4) /\
+  fst (fst (parse_next 5 (mkSrc [7; 2; 4; 0] [] EEOF false) None)) = inl EGoawayLen /\
+  fst (fst (parse_next 5 (mkSrc [4; 4; 6; 64; 200; 51] [] EEOF true) None)) = inl ETruncated.
+Proof. vm_compute. auto. Qed.
+Print Assumptions C18_example_goaway.
